@@ -5,7 +5,8 @@
    changes of the service and with other store calls (handles taken, handles read, lookups), then
    `apply_updates` iff no request failed (store.go:290-310 Refresh, 538-559 poll, 595-632
    applyUpdates).  Refresh is single-flighted (store.go:291): a Refresh arriving while a poll is
-   in flight starts nothing and receives that poll's result.
+   in flight starts nothing and receives that poll's result.  Every caller has its own context:
+   the leader's governs the poll's requests, a caller whose context ends returns at once (ECancel).
 
    Executable definitions only; the proofs are in PollProofs.v. *)
 From Coq Require Import List Bool NArith ZArith.
@@ -51,7 +52,15 @@ Definition vv (s : store) (n : name) : option (N * V) :=
 
 (* a poll in flight: the snapshot it works from, the requests answered so far (in order),
    the number of Refresh calls that joined it *)
-Record flight := FL { fsnap : list snap_entry; finst : list (name * inst); fjoin : nat }.
+Record flight := FL { fsnap : list snap_entry; finst : list (name * inst); fjoin : nat; fgone : list nat }.
+(* Callers of the flight are numbered in order of arrival: 0 is the LEADER (the caller whose
+   Refresh started the poll: the flight function captures ITS context, store.go:291-295, so its
+   context governs every request of the poll), 1..fjoin the callers that joined.  fgone lists
+   the callers whose own context has ended: each returned its context error at once (the select
+   at store.go:304-309) while the flight goes on. *)
+Definition gone (fl : flight) (k : nat) : bool := existsb (Nat.eqb k) (fgone fl).
+Definition lead_dead (fl : flight) : bool := gone fl 0.
+Definition waiting (fl : flight) : nat := S (fjoin fl) - length (fgone fl).
 Record world := WD { wst : store; wsv : server; wfl : option flight }.
 
 (* the end of a poll: Store.poll on the collected answers; apply iff none failed *)
@@ -73,6 +82,7 @@ Definition complete (fl : flight) : bool :=
 
 Inductive event :=
 | ERefresh (now_ns : Z)                       (* Refresh called (explicitly or by the ticker loop) *)
+| ECancel (k : nat)                           (* the context of caller k of the poll in flight ends *)
 | EReq (n : name) (fail full : bool)          (* the poll's request for n is answered now *)
 | EEnd                                        (* the poll's last request has been answered *)
 | ESrv (o : sop)                              (* the service changes *)
@@ -83,7 +93,8 @@ Inductive event :=
 
 Inductive out :=
 | OReq (old : option N) (r : resp)            (* version carried by the request; the service's answer *)
-| ORes (ok : bool)                            (* what a Refresh call returns *)
+| ORes (ok : bool)                            (* what a Refresh call returns when the poll ends: nil / the poll's error *)
+| OCtx                                        (* a Refresh call returns its own context's error *)
 | OFlush (d : list (doc_entry V))             (* a Cache.Write *)
 | OHandle (h : option bool)                   (* Secret: Some true handle, Some false nil, None panic *)
 | OVal (v : option V)                         (* bytes returned by a handle *)
@@ -96,22 +107,31 @@ Definition step (w : world) (e : event) : world * list out :=
   match e with
   | ERefresh now =>
     match ofl with
-    | None => (WD st sv (Some (FL (snapshot st now) [] 0)), [])
-    | Some fl => (WD st sv (Some (FL (fsnap fl) (finst fl) (S (fjoin fl)))), [])
+    | None => (WD st sv (Some (FL (snapshot st now) [] 0 [])), [])
+    | Some fl => (WD st sv (Some (FL (fsnap fl) (finst fl) (S (fjoin fl)) (fgone fl))), [])
+    end
+  | ECancel k =>
+    match ofl with
+    | Some fl =>
+      if (k <=? fjoin fl)%nat && negb (gone fl k)
+      then (WD st sv (Some (FL (fsnap fl) (finst fl) (fjoin fl) (k :: fgone fl))), [OCtx])
+      else (w, [])
+    | None => (w, [])      (* that caller has returned already *)
     end
   | EReq n fail full =>
     match ofl with
     | Some fl =>
-      let i := (sv, fail, full) in
+      (* a request made on a context that has ended fails (the client honours cancellation) *)
+      let i := (sv, fail || lead_dead fl, full) in
       let ov := req_version (fsnap fl) n in
-      (WD st sv (Some (FL (fsnap fl) (finst fl ++ [(n, i)]) (fjoin fl))),
+      (WD st sv (Some (FL (fsnap fl) (finst fl ++ [(n, i)]) (fjoin fl) (fgone fl))),
        [OReq ov (match ov with Some v => answer i n v | None => RErr end)])
     | None => (w, [])
     end
   | EEnd =>
     match ofl with
     | Some fl => let '(st', fx, ok) := finish st fl in
-                 (WD st' sv None, flush_out fx ++ repeat (ORes ok) (S (fjoin fl)))
+                 (WD st' sv None, flush_out fx ++ repeat (ORes ok) (waiting fl))
     | None => (w, [])
     end
   | ESrv o => (WD st (sstep sv o) ofl, [])
@@ -137,12 +157,15 @@ Fixpoint run (w : world) (evs : list event) : world * list (list out) :=
 (* the service state after a stretch of events; the requests of a stretch with their instants *)
 Definition srv_after (sv : server) (evs : list event) : server :=
   fold_left (fun sv e => match e with ESrv o => sstep sv o | _ => sv end) evs sv.
-Fixpoint collect (sv : server) (evs : list event) : list (name * inst) :=
+Definition dead_after (d : bool) (evs : list event) : bool :=
+  fold_left (fun d e => match e with ECancel O => true | _ => d end) evs d.
+Fixpoint collect (sv : server) (d : bool) (evs : list event) : list (name * inst) :=
   match evs with
   | [] => []
-  | ESrv o :: r => collect (sstep sv o) r
-  | EReq n fail full :: r => (n, (sv, fail, full)) :: collect sv r
-  | _ :: r => collect sv r
+  | ESrv o :: r => collect (sstep sv o) d r
+  | EReq n fail full :: r => (n, (sv, fail || d, full)) :: collect sv d r
+  | ECancel O :: r => collect sv true r
+  | _ :: r => collect sv d r
   end.
 Definition is_end (e : event) : bool := match e with EEnd => true | _ => false end.
 
@@ -188,6 +211,8 @@ Arguments SDel {V}.
 Arguments EEnd {V}.
 Arguments EShutdown {V}.
 Arguments ERefresh {V}.
+Arguments ECancel {V}.
+Arguments OCtx {V}.
 Arguments EReq {V}.
 Arguments ELookup {V}.
 Arguments ESecret {V}.
